@@ -6,3 +6,388 @@ Open Scope Z_scope.
 Lemma refuted_shared : exists pollers nfd ops,
   wf_C21 pollers nfd ops = true /\ ok_C21 pollers nfd ops (run_C21 pollers nfd ops) = false.
 Proof. exists 2%nat, 1, [WaitR 0; WaitR 0]. split; vm_compute; reflexivity. Qed.
+
+(** * One poller: the selector invariant *)
+
+Record sinv (s : sel) : Prop := {
+  v_kern : exists tb, s_kern s = [tb];
+  v_coh : forall fd, kr (tbl s 0) fd = zmem fd (s_rrec s) /\ kw (tbl s 0) fd = zmem fd (s_wrec s);
+  v_int : forall fd e, aget fd (tbl s 0) = Some e -> k_r e || k_w e = true;
+  v_open : forall fd e, aget fd (tbl s 0) = Some e -> zmem fd (s_open s) = true
+}.
+
+(** [s'] has the records of [s] with read membership [fr] and write membership [fw] applied *)
+Definition recs (s s' : sel) (fr fw : Z -> bool -> bool) : Prop :=
+  s_open s' = s_open s
+  /\ (forall x, zmem x (s_rrec s') = fr x (zmem x (s_rrec s)))
+  /\ (forall x, zmem x (s_wrec s') = fw x (zmem x (s_wrec s))).
+
+Definition keepm (_ : Z) (b : bool) : bool := b.
+Definition addm (fd x : Z) (b : bool) : bool := (x =? fd) || b.
+Definition remm (fd x : Z) (b : bool) : bool := negb (x =? fd) && b.
+
+Lemma sinv_mark : forall s i fd, sinv s -> sinv (mark s i fd).
+Proof.
+  intros s i fd H. unfold mark. destruct (coherent s i fd); [exact H|].
+  destruct H as [K C I O]. constructor; auto.
+Qed.
+
+Lemma recs_mark : forall s i fd, recs s (mark s i fd) keepm keepm.
+Proof.
+  intros s i fd. unfold mark. destruct (coherent s i fd); repeat split.
+Qed.
+
+Lemma recs_trans : forall s1 s2 s3 f1 g1 f2 g2,
+  recs s1 s2 f1 g1 -> recs s2 s3 f2 g2 ->
+  recs s1 s3 (fun x b => f2 x (f1 x b)) (fun x b => g2 x (g1 x b)).
+Proof.
+  intros s1 s2 s3 f1 g1 f2 g2 [A1 [B1 C1]] [A2 [B2 C2]]. repeat split.
+  - congruence.
+  - intros x. now rewrite B2, B1.
+  - intros x. now rewrite C2, C1.
+Qed.
+
+Lemma absent_iff : forall s fd, sinv s ->
+  (aget fd (tbl s 0) = None <-> zmem fd (s_rrec s) = false /\ zmem fd (s_wrec s) = false).
+Proof.
+  intros s fd [K C I O]. destruct (C fd) as [C1 C2]. unfold kr, kw in *.
+  destruct (aget fd (tbl s 0)) as [e|] eqn:G.
+  - specialize (I fd e G). split; [discriminate|]. intros [H1 H2].
+    rewrite <- C1 in H1. rewrite <- C2 in H2. rewrite H1, H2 in I. discriminate.
+  - split; [|reflexivity]. intros _. now rewrite <- C1, <- C2.
+Qed.
+
+Lemma kr_aset : forall t fd e x, kr (aset fd e t) x = if x =? fd then k_r e else kr t x.
+Proof. intros. unfold kr. rewrite aget_aset. now destruct (x =? fd). Qed.
+Lemma kw_aset : forall t fd e x, kw (aset fd e t) x = if x =? fd then k_w e else kw t x.
+Proof. intros. unfold kw. rewrite aget_aset. now destruct (x =? fd). Qed.
+Lemma kr_arem : forall t fd x, kr (arem fd t) x = if x =? fd then false else kr t x.
+Proof. intros. unfold kr. rewrite aget_arem. now destruct (x =? fd). Qed.
+Lemma kw_arem : forall t fd x, kw (arem fd t) x = if x =? fd then false else kw t x.
+Proof. intros. unfold kw. rewrite aget_arem. now destruct (x =? fd). Qed.
+
+(** a state whose table is [tb'] and whose records have the given membership is again coherent *)
+Lemma sinv_build : forall s s' tb' fr fw,
+  s_kern s' = [tb'] -> recs s s' fr fw ->
+  (forall x, kr tb' x = fr x (zmem x (s_rrec s)) /\ kw tb' x = fw x (zmem x (s_wrec s))) ->
+  (forall x e, aget x tb' = Some e -> k_r e || k_w e = true) ->
+  (forall x e, aget x tb' = Some e -> zmem x (s_open s) = true) ->
+  sinv s'.
+Proof.
+  intros s s' tb' fr fw K [A [B C]] H1 H2 H3.
+  assert (T : tbl s' 0 = tb') by (unfold tbl; now rewrite K).
+  constructor.
+  - now exists tb'.
+  - intros x. rewrite T, B, C. apply H1.
+  - intros x e. rewrite T. apply H2.
+  - intros x e. rewrite T, A. apply H3.
+Qed.
+
+Section OnePoller.
+Variable s : sel.
+Variable tb : ktable.
+Hypothesis Hs : sinv s.
+Hypothesis Hk : s_kern s = [tb].
+
+Lemma tbl_is : tbl s 0 = tb.
+Proof. unfold tbl. now rewrite Hk. Qed.
+
+Lemma add_read_spec : forall fd tok,
+  exists ok s', add_read_event s 0 fd tok = (ok, s') /\ sinv s'
+    /\ recs s s' (fun x b => if ok then addm fd x b else b) keepm.
+Proof.
+  intros fd tok. unfold add_read_event.
+  pose proof (sinv_mark s 0%nat fd Hs) as Hm. pose proof (recs_mark s 0%nat fd) as Rm.
+  assert (Km : s_kern (mark s 0 fd) = [tb]) by (unfold mark; destruct (coherent s 0 fd); exact Hk).
+  set (m := mark s 0 fd) in *. clearbody m.
+  assert (Tm : tbl m 0 = tb) by (unfold tbl; now rewrite Km).
+  destruct Rm as [Ro [Rr Rw]]. unfold keepm in Rr, Rw.
+  destruct (zmem fd (s_rrec m)) eqn:Er.
+  - exists true, m. split; [reflexivity|]. split; [exact Hm|]. repeat split; auto.
+    intros x. rewrite Rr. unfold addm. destruct (x =? fd) eqn:E; [|reflexivity].
+    apply Z.eqb_eq in E; subst x. now rewrite <- Rr, Er.
+  - pose proof (v_coh m Hm fd) as [C1 C2]. rewrite Tm in C1, C2.
+    destruct (zmem fd (s_wrec m)) eqn:Ew.
+    + (* write interest already there: modify *)
+      unfold rereg_or_reg, reregister, k_mod. rewrite Tm.
+      assert (G : exists e, aget fd tb = Some e).
+      { unfold kw in C2. destruct (aget fd tb) as [e|]; [now exists e|discriminate]. }
+      destruct G as [e G]. rewrite <- Tm in G. rewrite (v_open m Hm fd e G). cbn [negb]. rewrite Tm in G. rewrite G.
+      eexists true, _. split; [reflexivity|]. split.
+      * eapply (sinv_build m _ (aset fd {| k_r := true; k_w := true; k_tok := encode tok |} tb)
+                  (fun x b => addm fd x b) keepm).
+        -- cbn [s_kern with_r with_tokfd with_tbl]. now rewrite Km.
+        -- repeat split; cbn [s_open s_rrec s_wrec with_r with_tokfd with_tbl]; auto.
+           intros x. apply zmem_zadd.
+        -- intros x. rewrite kr_aset, kw_aset. cbn [k_r k_w]. unfold addm, keepm.
+           pose proof (v_coh m Hm x) as [D1 D2]. rewrite Tm in D1, D2.
+           destruct (x =? fd) eqn:E; [|now rewrite D1, D2].
+           apply Z.eqb_eq in E; subst x. now rewrite Ew.
+        -- intros x e0. rewrite aget_aset. destruct (x =? fd); [intros H; inversion H; reflexivity|].
+           rewrite <- Tm. apply (v_int m Hm).
+        -- intros x e0. rewrite aget_aset. destruct (x =? fd) eqn:E.
+           ++ intros _. apply Z.eqb_eq in E; subst x. rewrite <- Tm in G. exact (v_open m Hm fd e G).
+           ++ rewrite <- Tm. apply (v_open m Hm).
+      * repeat split; cbn [s_open s_rrec s_wrec with_r with_tokfd with_tbl]; auto.
+        -- intros x. rewrite zmem_zadd, Rr. reflexivity.
+    + (* nothing registered yet *)
+      assert (Gn : aget fd tb = None).
+      { rewrite <- Tm. apply (absent_iff m fd Hm). now split. }
+      unfold register, k_add. rewrite Tm, Gn.
+      destruct (zmem fd (s_open m)) eqn:Eo; cbn [negb].
+      * eexists true, _. split; [reflexivity|]. split.
+        -- eapply (sinv_build m _ (aset fd {| k_r := true; k_w := false; k_tok := encode tok |} tb)
+                    (fun x b => addm fd x b) keepm).
+           ++ cbn [s_kern with_r with_tokfd with_tbl]. now rewrite Km.
+           ++ repeat split; cbn [s_open s_rrec s_wrec with_r with_tokfd with_tbl]; auto.
+              intros x. apply zmem_zadd.
+           ++ intros x. rewrite kr_aset, kw_aset. cbn [k_r k_w]. unfold addm, keepm.
+              pose proof (v_coh m Hm x) as [D1 D2]. rewrite Tm in D1, D2.
+              destruct (x =? fd) eqn:E; [|now rewrite D1, D2].
+              apply Z.eqb_eq in E; subst x. now rewrite Ew.
+           ++ intros x e0. rewrite aget_aset. destruct (x =? fd); [intros H; inversion H; reflexivity|].
+              rewrite <- Tm. apply (v_int m Hm).
+           ++ intros x e0. rewrite aget_aset. destruct (x =? fd) eqn:E.
+              ** intros _. apply Z.eqb_eq in E; subst x. exact Eo.
+              ** rewrite <- Tm. apply (v_open m Hm).
+        -- repeat split; cbn [s_open s_rrec s_wrec with_r with_tokfd with_tbl]; auto.
+           intros x. rewrite zmem_zadd, Rr. reflexivity.
+      * exists false, m. split; [reflexivity|]. split; [exact Hm|]. repeat split; auto.
+Qed.
+
+Lemma add_write_spec : forall fd tok,
+  exists ok s', add_write_event s 0 fd tok = (ok, s') /\ sinv s'
+    /\ recs s s' keepm (fun x b => if ok then addm fd x b else b).
+Proof.
+  intros fd tok. unfold add_write_event.
+  pose proof (sinv_mark s 0%nat fd Hs) as Hm. pose proof (recs_mark s 0%nat fd) as Rm.
+  assert (Km : s_kern (mark s 0 fd) = [tb]) by (unfold mark; destruct (coherent s 0 fd); exact Hk).
+  set (m := mark s 0 fd) in *. clearbody m.
+  assert (Tm : tbl m 0 = tb) by (unfold tbl; now rewrite Km).
+  destruct Rm as [Ro [Rr Rw]]. unfold keepm in Rw, Rr.
+  destruct (zmem fd (s_wrec m)) eqn:Ew.
+  - exists true, m. split; [reflexivity|]. split; [exact Hm|]. repeat split; auto.
+    intros x. rewrite Rw. unfold addm. destruct (x =? fd) eqn:E; [|reflexivity].
+    apply Z.eqb_eq in E; subst x. now rewrite <- Rw, Ew.
+  - pose proof (v_coh m Hm fd) as [C1 C2]. rewrite Tm in C2, C1.
+    destruct (zmem fd (s_rrec m)) eqn:Er.
+    + (* write interest already there: modify *)
+      unfold rereg_or_reg, reregister, k_mod. rewrite Tm.
+      assert (G : exists e, aget fd tb = Some e).
+      { unfold kr in C1. destruct (aget fd tb) as [e|]; [now exists e|discriminate]. }
+      destruct G as [e G]. rewrite <- Tm in G. rewrite (v_open m Hm fd e G). cbn [negb]. rewrite Tm in G. rewrite G.
+      eexists true, _. split; [reflexivity|]. split.
+      * eapply (sinv_build m _ (aset fd {| k_r := true; k_w := true; k_tok := encode tok |} tb)
+                  keepm (fun x b => addm fd x b)).
+        -- cbn [s_kern with_w with_tokfd with_tbl]. now rewrite Km.
+        -- repeat split; cbn [s_open s_wrec s_rrec with_w with_tokfd with_tbl]; auto.
+           intros x. apply zmem_zadd.
+        -- intros x. rewrite kr_aset, kw_aset. cbn [k_r k_w]. unfold addm, keepm.
+           pose proof (v_coh m Hm x) as [D1 D2]. rewrite Tm in D2, D1.
+           destruct (x =? fd) eqn:E; [|now rewrite D2, D1].
+           apply Z.eqb_eq in E; subst x. now rewrite Er.
+        -- intros x e0. rewrite aget_aset. destruct (x =? fd); [intros H; inversion H; reflexivity|].
+           rewrite <- Tm. apply (v_int m Hm).
+        -- intros x e0. rewrite aget_aset. destruct (x =? fd) eqn:E.
+           ++ intros _. apply Z.eqb_eq in E; subst x. rewrite <- Tm in G. exact (v_open m Hm fd e G).
+           ++ rewrite <- Tm. apply (v_open m Hm).
+      * repeat split; cbn [s_open s_wrec s_rrec with_w with_tokfd with_tbl]; auto.
+        -- intros x. rewrite zmem_zadd, Rw. reflexivity.
+    + (* nothing registered yet *)
+      assert (Gn : aget fd tb = None).
+      { rewrite <- Tm. apply (absent_iff m fd Hm). now split. }
+      unfold register, k_add. rewrite Tm, Gn.
+      destruct (zmem fd (s_open m)) eqn:Eo; cbn [negb].
+      * eexists true, _. split; [reflexivity|]. split.
+        -- eapply (sinv_build m _ (aset fd {| k_r := false; k_w := true; k_tok := encode tok |} tb)
+                    keepm (fun x b => addm fd x b)).
+           ++ cbn [s_kern with_w with_tokfd with_tbl]. now rewrite Km.
+           ++ repeat split; cbn [s_open s_wrec s_rrec with_w with_tokfd with_tbl]; auto.
+              intros x. apply zmem_zadd.
+           ++ intros x. rewrite kr_aset, kw_aset. cbn [k_r k_w]. unfold addm, keepm.
+              pose proof (v_coh m Hm x) as [D1 D2]. rewrite Tm in D2, D1.
+              destruct (x =? fd) eqn:E; [|now rewrite D2, D1].
+              apply Z.eqb_eq in E; subst x. now rewrite Er.
+           ++ intros x e0. rewrite aget_aset. destruct (x =? fd); [intros H; inversion H; reflexivity|].
+              rewrite <- Tm. apply (v_int m Hm).
+           ++ intros x e0. rewrite aget_aset. destruct (x =? fd) eqn:E.
+              ** intros _. apply Z.eqb_eq in E; subst x. exact Eo.
+              ** rewrite <- Tm. apply (v_open m Hm).
+        -- repeat split; cbn [s_open s_wrec s_rrec with_w with_tokfd with_tbl]; auto.
+           intros x. rewrite zmem_zadd, Rw. reflexivity.
+      * exists false, m. split; [reflexivity|]. split; [exact Hm|]. repeat split; auto.
+Qed.
+
+
+End OnePoller.
+
+Section OnePollerDel.
+Variable m : sel.
+Variable tb : ktable.
+Hypothesis Hm : sinv m.
+Hypothesis Km : s_kern m = [tb].
+
+Lemma tbl_m : tbl m 0 = tb.
+Proof. unfold tbl. now rewrite Km. Qed.
+
+Lemma present_open : forall fd, zmem fd (s_rrec m) || zmem fd (s_wrec m) = true ->
+  exists e, aget fd tb = Some e /\ zmem fd (s_open m) = true.
+Proof.
+  intros fd H. destruct (aget fd tb) as [e|] eqn:G.
+  - exists e. split; [reflexivity|]. rewrite <- tbl_m in G. exact (v_open m Hm fd e G).
+  - rewrite <- tbl_m in G. apply (absent_iff m fd Hm) in G. destruct G as [G1 G2].
+    rewrite G1, G2 in H. discriminate.
+Qed.
+
+Lemma after_del_entry : forall fd s',
+  s_kern s' = [arem fd tb] -> recs m s' (remm fd) (remm fd) -> sinv s'.
+Proof.
+  intros fd s' K R. apply (sinv_build m s' (arem fd tb) (remm fd) (remm fd) K R).
+  - intros x. rewrite kr_arem, kw_arem. unfold remm.
+    pose proof (v_coh m Hm x) as [D1 D2]. rewrite tbl_m in D1, D2.
+    destruct (x =? fd); [split; reflexivity|]. now rewrite D1, D2.
+  - intros x e. rewrite aget_arem. destruct (x =? fd); [discriminate|]. rewrite <- tbl_m. apply (v_int m Hm).
+  - intros x e. rewrite aget_arem. destruct (x =? fd); [discriminate|]. rewrite <- tbl_m. apply (v_open m Hm).
+Qed.
+
+Lemma del_core_spec : forall fd,
+  exists s', del_event_core m 0 fd = (true, s') /\ sinv s' /\ recs m s' (remm fd) (remm fd).
+Proof.
+  intros fd. unfold del_event_core.
+  destruct (zmem fd (s_rrec m) || zmem fd (s_wrec m)) eqn:Ec.
+  - destruct (present_open fd Ec) as [e [G Op]].
+    assert (FIN : forall s1 tok, s_kern s1 = s_kern m -> s_open s1 = s_open m -> s_rrec s1 = s_rrec m ->
+              s_wrec s1 = s_wrec m ->
+              exists s', (let '(ok, s2) := deregister s1 0 fd tok in
+                          if ok then (true, with_w (with_r s2 (zrem fd (s_rrec s2)) (s_rtok s2)) (zrem fd (s_wrec s2)) (s_wtok s2))
+                          else (false, s2)) = (true, s')
+                         /\ sinv s' /\ recs m s' (remm fd) (remm fd)).
+    { intros s1 tok E1 E2 E3 E4. unfold deregister, k_del. unfold tbl at 1. rewrite E1, E2, Km. cbn [nth].
+      rewrite Op. cbn [negb]. rewrite G.
+      eexists. split; [reflexivity|].
+      match goal with |- sinv ?x /\ _ => set (sf := x) end.
+      assert (K' : s_kern sf = [arem fd tb]).
+      { subst sf. cbn [s_kern with_w with_r with_tokfd with_tbl]. unfold tbl. rewrite E1, Km. reflexivity. }
+      assert (R : recs m sf (remm fd) (remm fd)).
+      { subst sf. repeat split; cbn [s_open s_rrec s_wrec with_w with_r with_tokfd with_tbl].
+        - exact E2.
+        - intros x. rewrite E3. apply zmem_zrem.
+        - intros x. rewrite E4. apply zmem_zrem. }
+      clearbody sf. split; [|exact R]. exact (after_del_entry fd sf K' R). }
+    destruct (aget fd (s_rtok m)) as [t1|]; [|destruct (aget fd (s_wtok m)) as [t2|]].
+    + apply FIN; reflexivity.
+    + apply FIN; reflexivity.
+    + apply FIN; reflexivity.
+  - exists m. split; [reflexivity|]. split; [exact Hm|].
+    apply orb_false_iff in Ec as [E1 E2]. repeat split; intros x; unfold remm;
+      (destruct (x =? fd) eqn:E; [apply Z.eqb_eq in E; subst x; cbn; assumption|reflexivity]).
+Qed.
+
+End OnePollerDel.
+
+Lemma kern_mark : forall s i fd, s_kern (mark s i fd) = s_kern s.
+Proof. intros s i fd. unfold mark. now destruct (coherent s i fd). Qed.
+
+Lemma del_event_spec : forall s tb fd, sinv s -> s_kern s = [tb] ->
+  exists s', del_event s 0 fd = (true, s') /\ sinv s' /\ recs s s' (remm fd) (remm fd).
+Proof.
+  intros s tb fd Hs Hk. unfold del_event.
+  assert (Km : s_kern (mark s 0 fd) = [tb]) by now rewrite kern_mark.
+  destruct (del_core_spec (mark s 0 fd) tb (sinv_mark s 0%nat fd Hs) Km fd) as [s' [E [I R]]].
+  exists s'. split; [exact E|]. split; [exact I|].
+  exact (recs_trans _ _ _ _ _ _ _ (recs_mark s 0%nat fd) R).
+Qed.
+
+Lemma del_read_spec : forall s tb fd, sinv s -> s_kern s = [tb] ->
+  exists s', del_read_event s 0 fd = (true, s') /\ sinv s' /\ recs s s' (remm fd) keepm.
+Proof.
+  intros s tb fd Hs Hk. unfold del_read_event.
+  assert (Km : s_kern (mark s 0 fd) = [tb]) by now rewrite kern_mark.
+  pose proof (sinv_mark s 0%nat fd Hs) as Hm. pose proof (recs_mark s 0%nat fd) as Rm.
+  set (m := mark s 0 fd) in *. clearbody m.
+  assert (Tm : tbl m 0 = tb) by (unfold tbl; now rewrite Km).
+  assert (GOAL : exists s', (if zmem fd (s_rrec m)
+      then if zmem fd (s_wrec m)
+           then let tok := match aget fd (s_wtok m) with Some t => t | None => 0 end in
+                let '(ok, s1) := reregister m 0 fd tok false true in
+                if ok then (true, with_r s1 (zrem fd (s_rrec s1)) (arem fd (s_rtok s1))) else (false, s1)
+           else del_event_core m 0 fd
+      else (true, m)) = (true, s') /\ sinv s' /\ recs m s' (remm fd) keepm).
+  { destruct (zmem fd (s_rrec m)) eqn:Er.
+    - destruct (zmem fd (s_wrec m)) eqn:Ew.
+      + destruct (present_open m tb Hm Km fd) as [e [G Op]]; [now rewrite Er|].
+        cbv zeta. unfold reregister, k_mod. rewrite Tm, Op, G. cbn [negb].
+        eexists. split; [reflexivity|].
+        match goal with |- sinv ?x /\ _ => set (sf := x) end.
+        assert (R : recs m sf (remm fd) keepm).
+        { subst sf. repeat split; cbn [s_open s_rrec s_wrec with_w with_r with_tokfd with_tbl].
+          intros x. apply zmem_zrem. }
+        split; [|exact R].
+        eapply (sinv_build m sf _ (remm fd) keepm); [|exact R| | |].
+        * subst sf. cbn [s_kern with_w with_r with_tokfd with_tbl]. rewrite Km. reflexivity.
+        * intros x. rewrite kr_aset, kw_aset. cbn [k_r k_w]. unfold remm, keepm.
+          pose proof (v_coh m Hm x) as [D1 D2]. rewrite Tm in D1, D2.
+          destruct (x =? fd) eqn:E; [|now rewrite D1, D2].
+          apply Z.eqb_eq in E; subst x. now rewrite Ew.
+        * intros x e0. rewrite aget_aset. destruct (x =? fd); [intros H; inversion H; reflexivity|].
+          rewrite <- Tm. apply (v_int m Hm).
+        * intros x e0. rewrite aget_aset. destruct (x =? fd) eqn:E.
+          -- intros _. apply Z.eqb_eq in E; subst x. exact Op.
+          -- rewrite <- Tm. apply (v_open m Hm).
+      + destruct (del_core_spec m tb Hm Km fd) as [s' [E [I [R1 [R2 R3]]]]].
+        exists s'. split; [exact E|]. split; [exact I|]. repeat split; auto.
+        intros x. rewrite R3. unfold remm, keepm. destruct (x =? fd) eqn:Ex; [|reflexivity].
+        apply Z.eqb_eq in Ex; subst x. now rewrite Ew.
+    - exists m. split; [reflexivity|]. split; [exact Hm|]. repeat split; auto.
+      intros x. unfold remm. destruct (x =? fd) eqn:Ex; [|reflexivity].
+      apply Z.eqb_eq in Ex; subst x. now rewrite Er. }
+  destruct GOAL as [s' [E [I R]]]. exists s'. split; [exact E|]. split; [exact I|].
+  exact (recs_trans _ _ _ _ _ _ _ Rm R).
+Qed.
+
+Lemma del_write_spec : forall s tb fd, sinv s -> s_kern s = [tb] ->
+  exists s', del_write_event s 0 fd = (true, s') /\ sinv s' /\ recs s s' keepm (remm fd).
+Proof.
+  intros s tb fd Hs Hk. unfold del_write_event.
+  assert (Km : s_kern (mark s 0 fd) = [tb]) by now rewrite kern_mark.
+  pose proof (sinv_mark s 0%nat fd Hs) as Hm. pose proof (recs_mark s 0%nat fd) as Rm.
+  set (m := mark s 0 fd) in *. clearbody m.
+  assert (Tm : tbl m 0 = tb) by (unfold tbl; now rewrite Km).
+  assert (GOAL : exists s', (if zmem fd (s_wrec m)
+      then if zmem fd (s_rrec m)
+           then let tok := match aget fd (s_rtok m) with Some t => t | None => 0 end in
+                let '(ok, s1) := reregister m 0 fd tok true false in
+                if ok then (true, with_w s1 (zrem fd (s_wrec s1)) (arem fd (s_wtok s1))) else (false, s1)
+           else del_event_core m 0 fd
+      else (true, m)) = (true, s') /\ sinv s' /\ recs m s' keepm (remm fd)).
+  { destruct (zmem fd (s_wrec m)) eqn:Ew.
+    - destruct (zmem fd (s_rrec m)) eqn:Er.
+      + destruct (present_open m tb Hm Km fd) as [e [G Op]]; [now rewrite Er|].
+        cbv zeta. unfold reregister, k_mod. rewrite Tm, Op, G. cbn [negb].
+        eexists. split; [reflexivity|].
+        match goal with |- sinv ?x /\ _ => set (sf := x) end.
+        assert (R : recs m sf keepm (remm fd)).
+        { subst sf. repeat split; cbn [s_open s_rrec s_wrec with_w with_r with_tokfd with_tbl].
+          intros x. apply zmem_zrem. }
+        split; [|exact R].
+        eapply (sinv_build m sf _ keepm (remm fd)); [|exact R| | |].
+        * subst sf. cbn [s_kern with_w with_r with_tokfd with_tbl]. rewrite Km. reflexivity.
+        * intros x. rewrite kr_aset, kw_aset. cbn [k_r k_w]. unfold remm, keepm.
+          pose proof (v_coh m Hm x) as [D1 D2]. rewrite Tm in D1, D2.
+          destruct (x =? fd) eqn:E; [|now rewrite D1, D2].
+          apply Z.eqb_eq in E; subst x. now rewrite Er.
+        * intros x e0. rewrite aget_aset. destruct (x =? fd); [intros H; inversion H; reflexivity|].
+          rewrite <- Tm. apply (v_int m Hm).
+        * intros x e0. rewrite aget_aset. destruct (x =? fd) eqn:E.
+          -- intros _. apply Z.eqb_eq in E; subst x. exact Op.
+          -- rewrite <- Tm. apply (v_open m Hm).
+      + destruct (del_core_spec m tb Hm Km fd) as [s' [E [I [R1 [R2 R3]]]]].
+        exists s'. split; [exact E|]. split; [exact I|]. repeat split; auto.
+        intros x. rewrite R2. unfold remm, keepm. destruct (x =? fd) eqn:Ex; [|reflexivity].
+        apply Z.eqb_eq in Ex; subst x. now rewrite Er.
+    - exists m. split; [reflexivity|]. split; [exact Hm|]. repeat split; auto.
+      intros x. unfold remm. destruct (x =? fd) eqn:Ex; [|reflexivity].
+      apply Z.eqb_eq in Ex; subst x. now rewrite Ew. }
+  destruct GOAL as [s' [E [I R]]]. exists s'. split; [exact E|]. split; [exact I|].
+  exact (recs_trans _ _ _ _ _ _ _ Rm R).
+Qed.
